@@ -155,4 +155,12 @@ example : toIntList [.int .u64 9, .int .i8 10, .int .int 9] = some [9, 10, 9] :=
 example : toIntList [.int .u64 9, .str [0x78]] = none := by decide +kernel
 example : toIntList [.int .u64 9, .nil] = none := by decide +kernel
 
+/-- **the operation numbers are the ones of RFC 9052 Table 5** (regenerated from `iana/operation.go`): the gates compare
+    against these constants, and keys from other implementations carry the numbers — a transposed pair (3 ↔ 4, 9 ↔ 10)
+    would keep the library consistent with itself and invert the restriction for everybody else -/
+theorem key_operation_numbers_are_rfc9052 :
+    Iana.KeyOperationSign = 1 ∧ Iana.KeyOperationVerify = 2 ∧ Iana.KeyOperationEncrypt = 3 ∧ Iana.KeyOperationDecrypt = 4 ∧
+    Iana.KeyOperationWrapKey = 5 ∧ Iana.KeyOperationUnwrapKey = 6 ∧ Iana.KeyOperationDeriveKey = 7 ∧
+    Iana.KeyOperationDeriveBits = 8 ∧ Iana.KeyOperationMacCreate = 9 ∧ Iana.KeyOperationMacVerify = 10 := by decide +kernel
+
 end Cose.Props.C16
